@@ -592,6 +592,8 @@ class C03(Property):
                     self.check_import(world, df, exp, "%s(%s)" % (api, path), TOL_FILE_POS, TOL_FILE_ROT)
                 world.stats["judged_imports"] += 1
             try:
+                if len(df) == 0:
+                    raise ValueError("an empty list (e.g. read from a torn file) is outside the quantifier: not kept as a handle")
                 m = np.column_stack([df[c].to_numpy(dtype=float) for c in MOTL_COLS]).reshape(len(df), 20)
                 sess[step["h"]] = {"kind": "rln", "obj": out.value, "parts": matrix_to_parts(m),
                                    "version": float(out.value.version) if out.value.version is not None else None,
